@@ -30,7 +30,7 @@ META = {
     "one run: generated operands with overlapping or sparse state numbers, empty operands, useless states; Union (no / both / one map), UnionDisjointStates (client makes the state sets disjoint first), Intersection and IntersectionBU with absent, empty and pre-filled (left by an earlier identical call) maps; operands possibly shared copy-on-write with other handles; afterwards operands and results are mutated / destroyed. Oracle: exact language equality with the model union / product; the reported maps are judged semantically (every result state is named; what it accepts as a root is what the operand state / pair it stands for accepts; no two operand states / pairs share one result state unless the call merges them); maps left by another call (same or other operands) must not change the result's language; operands unchanged rule for rule (the property says so); every live handle equals its model at the end. Distinct non-trivial case = hash of (A, B, operation).",
     ["the language claim itself is a function of the inputs; simulation contributes the environment quantifier (layout decides product numbering, sharing, history)"], Q),
  "C03": _m("exploration",
-    "one run: generated automata (1-6 states mostly, up to 40; language equality exact within a work bound, else by sampled membership in both directions) with the corner cases the property names (final states without rules, unreachable-but-rule-owning states, unproductive states, no final state); RemoveUnreachableStates / RemoveUselessStates (with and without map) / IsLangEmpty; results share storage with the operand, then either is mutated. Oracle: language equality, reachability / usefulness post-conditions computed by the model on the read-back result, emptiness by the model. Distinct non-trivial case = hash of (A, operation).",
+    "one run: generated automata (1-6 states mostly, up to 40; language equality exact within a work bound, else by sampled membership in both directions) with the corner cases the property names (final states without rules, unreachable-but-rule-owning states, unproductive states, no final state); RemoveUnreachableStates / RemoveUselessStates (with and without map) / IsLangEmpty; results share storage with the operand, then either is mutated; the questions are then asked again of handles with a history (assigned over, moved, copied, modified in place). Oracle: language equality, reachability / usefulness post-conditions computed by the model on the read-back result, emptiness by the model. Distinct non-trivial case = hash of (A, operation).",
     [], Q),
  "C04": _m("exploration",
     "one run: generated automata (1-7 states, sometimes 17-40 so that the relation outgrows its initial 16x16 matrix), numbered densely either in visiting order (as the CLI does) or by a drawn bijection; downward simulation on the automaton, upward simulation on its useless-free part. Oracle: naive greatest fix-point from the definitions in the property, compared pair by pair through get(q,r). Distinct case = hash of the dense automaton and direction; counted separately when the relation is larger than the identity.",
@@ -46,7 +46,7 @@ META = {
     ["bdd-bu up+sim is not exercised as a verdict: the library cannot produce the upward preorder it needs (it reports NotImplementedException through the CLI path, which is checked)"],
     {"quick": {"plain": 45, "san": 10}, "thorough": {"plain": 900, "san": 300}}),
  "C08": _m("exploration",
-    "one run: histories of load / copy / assign / move / destroy and Union / UnionDisjointStates / Intersection / RemoveUnreachableStates / RemoveUselessStates / GetTopDownAut / ReindexStates over bdd-bu and bdd-td automata that share transition tables. Oracle after every step: every live handle is dumped, read by the independent Timbuk reader and must denote its model language (exact); results equal model union / product / trimmed language; no useless state after RemoveUselessStates.",
+    "one run: histories of load / copy / assign / move / destroy and Union / UnionDisjointStates / Intersection / RemoveUnreachableStates / RemoveUselessStates / GetTopDownAut / ReindexStates over bdd-bu and bdd-td automata that share transition tables; a third of the clients start with a 'diamond' (two results derived from one base by Union / UnionDisjointStates or by copy + SetStateFinal, then combined with each other and the base). Oracle after every step: every live handle is dumped, read by the independent Timbuk reader and must denote its model language (exact); results equal model union / product / trimmed language; no useless state after RemoveUselessStates.",
     ["state numbers of all live BDD automata of one encoding are treated as one name space when the client establishes the 'disjoint state sets' precondition of UnionDisjointStates (automata sharing a table see each other's rules; see DESIGN.md section 6)"], Q),
  "C09": _m("exploration",
     "one run: generated NFA pairs (<= 7 states; several start states, start-and-final states, dead / unreachable states, symbols in one operand only), loaded after other clients registered unrelated symbols; antichains, congruence depth-first and breadth-first in a drawn order, directly with arbitrary overlapping numbering and through the CLI protocol; the antichain and the depth-first congruence algorithm also with a simulation preorder handed over through InclParam (the client sanitises the operands as cli/operations.hh does and supplies the reference model's forward simulation on their union: the greatest one, the identity, its restriction to pairs inside one operand, its restriction to smaller-to-bigger pairs). Oracle: exact subset-construction inclusion; all selections agree; a step that exceeds 2*10^7 allocator events is a hang.",
@@ -56,13 +56,13 @@ META = {
     "one run: generated NFAs (empty word accepted, several start states, product states with one initial component); Union, UnionDisjointStates, Intersection, Reverse, RemoveUnreachableStates, RemoveUselessStates, GetCandidateTree; results read back through DumpToString and the independent reader. Oracle: exact NFA language equality / inclusion by the model; operands keep their language.",
     ["start symbols are not part of the language (C09's acceptance definition)"], Q),
  "C11": _m("exploration",
-    "one run: 1-4 clients with interleaved histories of construct / load / copy / partial copy / assign / self-assign / move / AddTransition / SetStateFinal / SetStatesFinal / EraseFinalStates / Clear / destroy / give-a-copy-to-another-client and library operations over explicit tree and finite automata; client aborts. Oracle: after every mutating step every live handle of every client is read back (iteration resp. dump) and equals its private model; a deciding operation repeated later on equal operands returns the same result. Non-trivial distinct case = hash of a repeated decision; distinct interleavings are counted by allocation fingerprint.",
+    "one run: 1-4 clients with interleaved histories of construct / load / copy / partial copy / assign / self-assign / move / AddTransition / CopyTransitionsFrom / SetStateFinal / SetStatesFinal / EraseFinalStates / Clear / SetStateStart / SetExistingStateStart / destroy / give-a-copy-to-another-client and library operations over explicit tree and finite automata; client aborts. Oracle: after every mutating step every live handle of every client is read back (iteration resp. dump) and equals its private model; a deciding operation repeated later on equal operands returns the same result. Non-trivial distinct case = hash of a repeated decision; distinct interleavings are counted by allocation fingerprint.",
     [], Q),
  "C12": _m("exploration",
-    "one run: sequences of the five mutators (repeated rules, nullary rules, one symbol number with several arities, final states without rules) interleaved with multi-step views: an iterator, GetAcceptTrans(), operator[](q) advanced one ++ per step while sharing copies are mutated or destroyed by this or other clients and read-only observers are called on the viewed automaton. Oracle: each view yields exactly the model's rules, each once; ContainsTransition, GetUsedStates, GetFinalStates, IsStateFinal, AreTransitionsEmpty by definition on the model.",
+    "one run: sequences of the five mutators (repeated rules, nullary rules, one symbol number with several arities, final states without rules) interleaved with multi-step views: an iterator, GetAcceptTrans(), operator[](q) advanced one ++ per step while sharing copies are mutated or destroyed by this or other clients and read-only observers are called on the viewed automaton. The end of a view is tested with operator== and operator!= alternately; both are evaluated and must be complementary. Oracle: each view yields exactly the model's rules, each once; ContainsTransition, GetUsedStates, GetFinalStates, IsStateFinal, AreTransitionsEmpty by definition on the model.",
     ["a client never mutates an automaton it is iterating"], Q),
  "C13": _m("fault_enumeration",
-    "systematic part: for every small text shipped in automata/small_timbuk and automata/fail_timbuk (read through the real Util::ReadFile) EVERY truncation point 0..n, EVERY single-line drop / duplication / adjacent swap and EVERY zero-filled tail is applied and the damaged text is given to ParseString and to the loaders of all four encodings (run index -> work item, 48 faults per item). Sampled part: generated descriptions (names from the full legal character set, nullary rules with and without parentheses, empty sections) get a strict round trip (parse, serialise+parse, load+dump per encoding, dump/load fix-point), then their complete single-fault space, then sampled byte flips, random byte strings and splices; plus reload of a completed dump after a client abort. Oracle for damaged text: the call returns or throws a std::exception, within the tick budget, no monitor fires, every other live handle is untouched, and on success (all names expressible) dump/load/dump is a fix-point. One evaluation = one run; distinct non-trivial = distinct damaged texts.",
+    "systematic part: for every small text shipped in automata/small_timbuk and automata/fail_timbuk (read through the real Util::ReadFile) EVERY truncation point 0..n, EVERY single-line drop / duplication / adjacent swap and EVERY zero-filled tail is applied and the damaged text is given to ParseString and to the loaders of all four encodings (run index -> work item, 48 faults per item). Sampled part: generated descriptions (names from the full legal character set, nullary rules with and without parentheses, empty sections) get a strict round trip (parse, serialise+parse, load+dump per encoding, dump/load fix-point), then their complete single-fault space, then sampled byte flips, random byte strings and splices; the load / dump pair is drawn per text from the name-preserving overloads (text or parsed description; dictionary or weak translator over a dictionary; dump through a dictionary, a strict back-translator or DumpToAutDesc + Serialize); in half of the sampled runs a second client runs a short history of explicit, word or BDD automata (value operations and the library's operations), dumps several handles, is usually aborted, and every completed dump is reloaded: what comes back must be what was dumped (word automata: also the start states as GetStartStates() reports them). Oracle for damaged text: the call returns or throws a std::exception, within the tick budget, no monitor fires, every other live handle is untouched, and on success (all names expressible) dump/load/dump is a fix-point. One evaluation = one run; distinct non-trivial = distinct damaged texts.",
     ["one start arrow per start state in generated word-automaton texts (the dump writes one start symbol per start state)",
      "the fix-point after a damaged load is demanded only when every name of the loaded automaton is expressible in the format",
      "the arbitrary-byte-string clause is sampled, not enumerated"],
